@@ -67,6 +67,11 @@ static std::string get_readable_dname(std::string& wire_dname)
             return wire_dname;
 
         labels++;
+
+        // The next label length has to lie inside the name, otherwise it isn't a wire format name
+        if (pos >= dname.size())
+            return wire_dname;
+
         label_len = dname[pos];
 
         // Replace all label length bytes with '.' character
